@@ -39,7 +39,9 @@ def run_case(args):
     rng = random.Random(f"c04-{seed}-{idx}")
     logic = LOGICS[idx % len(LOGICS)]
     opts = VECTORS[(idx // len(LOGICS)) % len(VECTORS)]
-    if idx % 2 == 1 and ":produce-unsat-cores true" not in opts:
+    if idx % 5 == 2:
+        p, script, checks = gen.sibling_history(logic, rng, options=opts, after_check=queries_for(opts), big=(idx % 4 == 3))
+    elif idx % 2 == 1 and ":produce-unsat-cores true" not in opts:
         p, script, checks = gen.clausal_history(logic, rng, options=opts, after_check=queries_for(opts))
     else:
         p, script, checks = gen.history(logic, rng, options=opts, big=(idx % 5 == 4), after_check=queries_for(opts),
